@@ -234,7 +234,7 @@ def gen_cases(prop, seed, n_types, per):
     rnd = random.Random(seed * 1000003 + hash(prop) % 997 if False else seed * 1000003 + sum(map(ord, prop)))
     pool = Pool(); g = Gen(rnd, pool, KINDS_BY_PROP.get(prop))
     if prop in ("C02", "C03", "C08") and not KINDS_BY_PROP.get(prop): g.kinds = g.kinds + ["depreq", "aggregate"]
-    if prop == "C08": g.kinds = g.kinds + ["postinit", "postinit"]
+    if prop == "C08": g.kinds = g.kinds + ["postinit", "postinit", "plain", "plain"]
     types = []
     for _ in range(n_types):
         t = g.ty(3)
@@ -346,10 +346,21 @@ def evaluate(prop, t, tp, d, o, ns, mo):
         prev = settings.deserialization.override_dataclass_constructors
         try:
             settings.deserialization.override_dataclass_constructors = not prev
-            alt = run_impl(tp, d, o)
+            k3 = {}
+            alt = run_impl(tp, d, o, keep=k3)
+            # the same datum a second time: a default (factory) value must not be shared between two results, nor end up in the input
+            k4 = {}
+            alt2 = run_impl(tp, d, o, keep=k4)
         finally:
             settings.deserialization.override_dataclass_constructors = prev
         if strip(alt) != strip(im): fails.append("result-depends-on-override_dataclass_constructors")
+        elif strip(alt2) != strip(alt): fails.append("result-depends-on-override_dataclass_constructors"); info["second_run"] = strip(alt2)
+        if snapshot(k3["data"]) != snapshot(instantiate(d)):
+            fails.append("input-modified-with-override_dataclass_constructors"); info["input_after"] = repr(k3["data"])[:200]
+        if "value" in k3 and "value" in k4:
+            # two results never share a mutable default (a default_factory list written once and reused)
+            both = (set(value_containers(k3["value"])) & set(value_containers(k4["value"]))) - set(containers(k3["data"])) - set(containers(k4["data"]))
+            if both: fails.append("two-results-share-a-mutable-container-with-override_dataclass_constructors")
         out, k2 = outs[(False, False)]
         if "value" in k2:
             shared = set(containers(k2["data"])) & set(value_containers(k2["value"]))
@@ -576,6 +587,29 @@ def tuple_family_clash(t):
     return any(tuple_family_clash(k) for k in t.kids)
 
 
+def revalue(t, v, rnd):
+    """the same value with other runtime classes where the annotation is an abstract collection (Sequence / Collection /
+    MutableSequence): a tuple or a deque instead of the list that deserialization builds"""
+    import dataclasses, collections as _c
+    k = t.kind
+    if k in ("list", "clist", "sequence") and isinstance(v, list):
+        xs = [revalue(t.kids[0], x, rnd) for x in v]
+        if "abstract-collection" in getattr(t, "tags", ()):
+            return tuple(xs) if ("Mutable" not in t.py.split("[")[0] and rnd.random() < 0.6) else _c.deque(xs)
+        return xs
+    if k == "vtuple" and isinstance(v, tuple): return tuple(revalue(t.kids[0], x, rnd) for x in v)
+    if k == "tuple" and isinstance(v, tuple) and len(v) == len(t.kids): return tuple(revalue(a, x, rnd) for a, x in zip(t.kids, v))
+    if k in ("mapping", "cdict") and isinstance(v, dict): return {kk: revalue(t.kids[-1], x, rnd) for kk, x in v.items()}
+    if k == "optional": return None if v is None else revalue(t.kids[0], v, rnd)
+    if k == "newtype": return revalue(t.kids[0], v, rnd)
+    if hasattr(t, "fields") and dataclasses.is_dataclass(v) and not isinstance(v, type):
+        new = copy.copy(v)
+        for f in t.fields:
+            if hasattr(v, f["name"]): object.__setattr__(new, f["name"], revalue(f["ty"], getattr(v, f["name"]), rnd))
+        return new
+    return v
+
+
 def ser_part(seed, budget):
     """serialization side of C08: results do not depend on no_copy, check_type (well-typed values), function vs precomputed
     method, nor - up to what serialization_default completes - on PassThroughOptions"""
@@ -593,14 +627,18 @@ def ser_part(seed, budget):
         tp = eval(t.py, ns)
         for _ in range(4):
             d = g.valid(t)
-            try: v = deserialize(tp, fresh(d), no_copy=False)
+            try: v0 = deserialize(tp, fresh(d), no_copy=False)
             except Exception: continue
             so = {"exclude_none": rnd.random() < 0.3, "exclude_defaults": rnd.random() < 0.3, "additional_properties": rnd.random() < 0.3}
             def out(fn):
                 try: return ("ok", canon_py(fn()))
                 except Exception as e: return ("exc", type(e).__name__)
-            base = out(lambda: serialize(tp, v, no_copy=False, check_type=False, **so))
+            base = out(lambda: serialize(tp, v0, no_copy=False, check_type=False, **so))
             if base[0] != "ok": continue
+            v = v0
+            if "abstract-collection" in t.features() and not ({"union", "optional"} & t.features()):
+                # a tuple / deque where the annotation is Sequence / Collection: same output as the list, whatever the options
+                v = revalue(t, v0, rnd)
             n += 1
             if t.kind not in Gen.LEAVES: distinct.add(case_hash(t.lean, dproto(d), so))
             variants = {
